@@ -98,6 +98,17 @@ type Sim struct {
 	// storage operation before a waiter gets the lock, which hides every
 	// check-then-act window that opens right after an Unlock.
 	YieldOnRelease bool
+	// YieldOnAcquirePermille: the task the scheduler released parks before it
+	// takes a FREE lock in about this share of its lock acquisitions (at most
+	// YieldAcquireLeft times per run): two statements with nothing but an
+	// uncontended lock between them ("open the snapshot, then read the applied
+	// index") are otherwise atomic to the scheduler. Which acquisitions yield
+	// is a pure function of AcquireSeed (drawn once from the tape) and the
+	// task's acquisition count - no tape cell per acquisition.
+	YieldOnAcquirePermille int
+	YieldAcquireLeft       int
+	AcquireSeed            uint64
+	acqN                   uint64
 	mu         sync.Mutex // protects the fields below; never held while parked
 	parkedOps  []*parked
 	tasks      map[uint64]*Task
@@ -268,6 +279,22 @@ func (s *Sim) taskFor(id uint64, kind, desc string) *Task {
 // channel) parks before it takes even a free lock, so that its position in
 // the interleaving is decided by the tape and not by the Go runtime.
 func (s *Sim) Yield() bool {
+	if s.YieldOnAcquirePermille > 0 && s.YieldAcquireLeft > 0 {
+		if a := s.active.Load(); a != 0 && goid() == a {
+			s.acqN++
+			x := s.AcquireSeed + s.acqN*0x9E3779B97F4A7C15
+			x ^= x >> 30
+			x *= 0xBF58476D1CE4E5B9
+			x ^= x >> 27
+			x *= 0x94D049BB133111EB
+			x ^= x >> 31
+			if int(x%1000) < s.YieldOnAcquirePermille {
+				s.YieldAcquireLeft--
+				s.Faults["yield-on-acquire"]++
+				return true
+			}
+		}
+	}
 	if !s.YieldForeign {
 		return false
 	}
